@@ -7050,11 +7050,11 @@ struct ccBVal_info ccBValInfoTable[] = {
  {FOAM_BVal_DFloTimes,     CCO_Star,   0,0,                 0},
  {FOAM_BVal_DFloTimesPlus, CCO_FCall,  0,"fiDFloTimesPlus","fiDFLO_TIMES_PLUS"},
  {FOAM_BVal_DFloDivide,    CCO_Div,    0,0,                 0},
- {FOAM_BVal_DFloRPlus,     CCO_Plus,   0,"fiSFloRPlus",     "fiDFLO_R_PLUS"},
- {FOAM_BVal_DFloRMinus,    CCO_FCall,  0,"fiSFloRMinus",    "fiDFLO_R_MINUS"},
- {FOAM_BVal_DFloRTimes,    CCO_FCall,  0,"fiSFloRTimes",    "fiDFLO_R_TIMES"},
+ {FOAM_BVal_DFloRPlus,     CCO_FCall,  0,"fiDFloRPlus",     "fiDFLO_R_PLUS"},
+ {FOAM_BVal_DFloRMinus,    CCO_FCall,  0,"fiDFloRMinus",    "fiDFLO_R_MINUS"},
+ {FOAM_BVal_DFloRTimes,    CCO_FCall,  0,"fiDFloRTimes",    "fiDFLO_R_TIMES"},
  {FOAM_BVal_DFloRTimesPlus,CCO_FCall,  0,"fiDFloRTimesPlus","fiDFLO_R_TIMES_PLUS"},
- {FOAM_BVal_DFloRDivide,   CCO_FCall,  0,"fiSFloRDivide",   "fiDFLO_R_DIVIDE"},
+ {FOAM_BVal_DFloRDivide,   CCO_FCall,  0,"fiDFloRDivide",   "fiDFLO_R_DIVIDE"},
  {FOAM_BVal_DFloDissemble, CCO_FCall,  0,"fiDFloDissemble", 0},
  {FOAM_BVal_DFloAssemble,  CCO_FCall,  0,"fiDFloAssemble",  0},
 
